@@ -309,7 +309,7 @@ func runC16(w *mon.W) {
 				w.Violation(id, fmt.Sprintf("rebase.Read: %v", err), rep)
 			}
 		} else {
-			p = mon.Try(func() { got = rebase.Parse([]byte(listing)) })
+			p = mon.Try(func() { buf := []byte(listing); got = rebase.Parse(buf); scribble(buf) })
 		}
 		if p != "" {
 			w.Violation(id, fmt.Sprintf("rebase.%s on a well-formed listing (%d records, %d suppliers, %s indent): %s", entry, len(recs), nsup, rep["indent"], p), rep)
